@@ -447,7 +447,7 @@ theorem applyCmd_no_callback {c : Config} {s : NodeState} {now : Nat} {e : Entry
   · split at h
     · cases h
     · cases h; exact noSuccess_single rfl
-  · cases h; exact changeCluster_noSuccess s now _ _
+  · cases h; exact noSuccess_nil
   · cases h; exact noSuccess_single rfl
 
 theorem applyLoop_success (c : Config) (now : Nat) (es : List Entry) :
